@@ -11,7 +11,11 @@ Tie (differential, every run):
                     exact at the expression body and converted at the root;
   * stream `views`  parse_sections + classify_by_sections + compute_section_totals on generated views files
                     × merchant sets (built by the real analyze_transactions) against `View.classifyViews`;
-  * stream `keys`   strftime('%Y-%m' | '%Y' | '%Y-%m-%d' | '%Y-W%W') against the model's key functions.
+  * stream `keys`   strftime('%Y-%m' | '%Y' | '%Y-%m-%d' | '%Y-W%W') against the model's key functions;
+  * stream `html`   views files with generated view NAMES through the real write_summary_file_vue: the `sections` of the data script
+                    read back from report.html against `View.htmlSections` (id function observed on the real report), and - on the
+                    implementation alone - against what classify_by_sections reports (every view with members present once, by title,
+                    with exactly its merchants; only the recorded id-collision class D12g is set aside, see `d12g_key`).
 Oracle on the implementation alone (the property itself): membership ⇔ not excluded ∧ the single filter is
 true over the merchant's own payments (variables evaluated per merchant by the harness's own loop, and once more with
 every variable reference textually replaced by its definition: one closed expression over the primitives); add / remove / reorder views leaves other views alone; view total =
@@ -742,14 +746,14 @@ def non_ascii_lower_table(ms):
 
 
 def model_views(cases):
-    """cases: [(config_json, merchants_json, num_months)]"""
-    batch = [{'config': c, 'merchants': m, 'num_months': n, 'convert': True} for c, m, n in cases]
+    """cases: [(config_json, merchants_json, num_months[, extra fields of the request])]"""
+    batch = [dict({'config': c[0], 'merchants': c[1], 'num_months': c[2], 'convert': True}, **(c[3] if len(c) > 3 else {})) for c in cases]
     saved = exprs.oracle_compute
     exprs.oracle_compute = view_oracle
     try:
         # pre-ship str.lower of non-ASCII tags (needed by is_excluded_from_spending, which is outside the evaluator)
         d = common.Driver()
-        tables = [non_ascii_lower_table(m) for _, m, _ in cases]
+        tables = [non_ascii_lower_table(c[1]) for c in cases]
         results = [None] * len(batch)
         pending = list(range(len(batch)))
         for _ in range(600):
@@ -1479,8 +1483,306 @@ def error_excludes_oracle(bm, r, num_months=12):
     return fails
 
 
+# ----------------------------------------------------------------------------------------------- the views in the HTML report's data
+# observe_at: `spendingData.sections` of the HTML report.  The views stream above stops at classify_by_sections; a browser shows
+# what write_summary_file_vue stores under an ID derived from the view's NAME.  Whatever that id function is, the property needs it
+# to keep apart every two views of one file: a view that shares its id with a later one is overwritten, its merchants are listed
+# nowhere, and adding / removing / reordering the other view changes what this one shows.  The names of the other views streams are
+# eight plain English words; this stream quantifies over the NAMES: punctuation, letter case, digits, scripts without any ASCII
+# letter, accents / normalisation forms / width, names that differ only in characters an id function is likely to drop or merge.
+
+HTML_PREFIX = 'window.spendingData = '
+
+VIEW_BASES = ['Food & Drink', 'Bills (fixed)', 'Big Purchases', 'Every Month', 'Café Zoë', 'Top 10', 'Q1 2025', 'A/B', 'Rent', 'Über 100',
+              'Subscriptions', 'One-off', 'Kids + School', 'Tax: deductible', '50% off', "Mum's", 'R&D', 'view', 'Section 1', 'x']
+# names without a single ASCII letter or digit (every id function that keeps [a-z0-9] only sends all of them to the same id)
+SCRIPT_NAMES = ['食費', '光熱費', '交通費', 'Еда', 'Счета', 'Φαγητό', 'Λογαριασμοί', 'طعام', 'فواتير', 'אוכל', '음식', '공과금', 'खाना', 'อาหาร',
+                '🍔', '💡', '🍔 🍟', '—', '…', '!!!', '???', '#', '%', '&', '/', '+', '*', '( )', '¿?', '€', '£ $']
+PUNCT = ['&', '/', '-', '.', ':', '+', ',', '|', '(', ')', '!', '?', '#', '*', '~', "'", '"', '@', '=', '<', '>', '·', '—', '_']
+LONG_TAIL = ' and everything else that was bought, ordered or renewed during the year '
+
+
+def d12g_key(name):
+    """The RECORDED collision class of the unchanged tree (DESIGN §10.4, D12g; candidate repair notes/fix_D12g_view_ids.diff): two
+    different view names share their place in the HTML data exactly when they are equal once lower-cased (str.lower) with every
+    space written as an underscore - `[My View]` / `[my_view]` / `[MY VIEW]`.  Failures whose view has such a twin among the other
+    non-empty views of the file are counted as observations of D12g and not flagged; nothing else is excluded."""
+    return name.lower().replace(' ', '_')
+
+
+def strip_accents(s):
+    import unicodedata
+    return ''.join(ch for ch in unicodedata.normalize('NFD', s) if not unicodedata.combining(ch))
+
+
+def full_width(s):
+    return ''.join(chr(ord(ch) + 0xFEE0) if '!' <= ch <= '~' and ch not in '[]' else ch for ch in s)
+
+
+def name_variant(r, s):
+    """(name related to `s` that a lossy id function may identify with it, operator)"""
+    import unicodedata
+    ops = ['case', 'space_underscore', 'punct_swap', 'punct_drop', 'punct_add', 'space_to', 'wrap', 'accent', 'nfd', 'width', 'digit',
+           'long', 'script', 'double', 'edge']
+    op = r.choice(ops)
+    if op == 'case':
+        v = r.choice([s.upper(), s.lower(), s.title(), s.swapcase(), s[:1].lower() + s[1:]])
+    elif op == 'space_underscore':
+        v = s.replace(' ', '_') if ' ' in s else (s.replace('_', ' ') if '_' in s else s + '_1')
+    elif op == 'punct_swap':
+        idx = [i for i, ch in enumerate(s) if ch in PUNCT]
+        if idx:
+            i = r.choice(idx)
+            v = s[:i] + r.choice([p for p in PUNCT if p != s[i]]) + s[i + 1:]
+        else:
+            i = r.randint(0, len(s))
+            v = s[:i] + r.choice(PUNCT) + s[i:]
+    elif op == 'punct_drop':
+        v = ''.join(ch for ch in s if ch not in PUNCT) or s + '.'
+    elif op == 'punct_add':
+        i = r.randint(0, len(s))
+        v = s[:i] + r.choice(PUNCT) + s[i:]
+    elif op == 'space_to':
+        v = s.replace(' ', r.choice(['-', '.', '  ', '\u00a0', '\t', '', ' - ', '/', '\u00b7', '\u3000'])) if ' ' in s else s[:1] + ' ' + s[1:]
+    elif op == 'wrap':
+        a, b = r.choice([('', '!'), ('', '?'), ('', '.'), ('', ' #'), ('(', ')'), ('"', '"'), ('*', '*'), ('- ', ''), ('', ' …'), ('¡', '!'),
+                         ('<', '>'), ('', ' ✓')])
+        v = a + s + b
+    elif op == 'accent':
+        t = strip_accents(s)
+        if t != s:
+            v = t
+        else:
+            idx = [i for i, ch in enumerate(s) if ch in 'aeiouAEIOU']
+            v = s
+            if idx:
+                i = r.choice(idx)
+                v = unicodedata.normalize('NFC', s[:i + 1] + r.choice(['\u0301', '\u0300', '\u0308', '\u0302']) + s[i + 1:])
+    elif op == 'nfd':
+        v = unicodedata.normalize('NFD', s)
+        if v == s:
+            v = s + '\u0327'
+    elif op == 'width':
+        v = full_width(s)
+    elif op == 'digit':
+        v = (s[:-1] + str((int(s[-1]) + 1) % 10)) if s[-1:].isdigit() else s + r.choice([' 2', '2', ' II', ' (2)'])
+    elif op == 'long':           # long names that differ only at the very end (an id cut to a fixed length)
+        base = s[:s.index(LONG_TAIL)] if LONG_TAIL in s else s
+        v = base + LONG_TAIL + r.choice([y for y in ['2023', '2024', '2025', '2024 (b)'] if base + LONG_TAIL + y != s])
+    elif op == 'script':
+        v = r.choice(SCRIPT_NAMES)
+    elif op == 'double':
+        v = s + ' ' + s
+    else:
+        v = r.choice(PUNCT) + s if r.random() < 0.5 else s + r.choice(PUNCT)
+    return v, op
+
+
+def gen_view_names(r, k):
+    """k distinct view names: one or two families (a base and names related to it) plus unrelated ones"""
+    names, ops = [], []
+
+    def add(n, op):
+        n = n.replace(']', ')').replace('\n', ' ').replace('\r', ' ').strip()
+        if n and n not in names:
+            names.append(n); ops.append(op)
+
+    tries = 0
+    while len(names) < k and tries < 50:
+        tries += 1
+        if names and r.random() < 0.7:
+            v, op = name_variant(r, r.choice(names))
+            if op == 'long':                      # … and a second one with the same first 80 characters
+                add(v, op)
+                v = v[:v.index(LONG_TAIL)] + LONG_TAIL + '1999'
+            elif r.random() < 0.25:
+                v, op2 = name_variant(r, v)
+                op = op + '+' + op2
+            add(v, op)
+        else:
+            pool = SCRIPT_NAMES if r.random() < 0.35 else VIEW_BASES
+            add(r.choice(pool), 'base' if pool is VIEW_BASES else 'script')
+    order = list(range(len(names)))
+    r.shuffle(order)
+    return [names[i] for i in order], [ops[i] for i in order]
+
+
+def gen_named_views(r, bm):
+    """abstract views file with generated NAMES and plain filters drawn from the merchant set (most views non-empty, most different)"""
+    kept = [(n, d) for n, d in bm.items() if not spec_excluded(d.get('tags', []))]
+    pool = ['true', 'true', 'months >= 1', 'months >= 2', 'count(payments) >= 2', 'total > 0', 'total < 0 or total >= 0']
+    for n, d in kept:
+        pool += [f'category == "{d.get("category", "")}"', f'subcategory == "{d.get("subcategory", "")}"', f'merchant == "{n}"',
+                 f'merchant != "{n}"']
+    tots = sorted(d.get('total', 0) for _, d in kept)
+    for a, b in zip(tots, tots[1:]):
+        pool.append(f'total > {num_text((a + b) / 2)}')
+        pool.append(f'total <= {num_text((a + b) / 2)}')
+    names, ops = gen_view_names(r, r.choice([2, 2, 3, 3, 4, 5, 6]))
+    return {'globals': [], 'sections': [{'name': n, 'locals': [], 'filter': r.choice(pool)} for n in names], 'named': True, 'ops': ops}
+
+
+def name_stats(views, hstats, hops):
+    """what the generated names of one file cover (evidence only)"""
+    import re
+    names = [s['name'] for s in views['sections']]
+    for op in views.get('ops', []):
+        for o in op.split('+'):
+            hops[o] = hops.get(o, 0) + 1
+    inc = lambda k, c: hstats.__setitem__(k, hstats.get(k, 0) + bool(c))
+    alnum = [re.sub(r'[^a-z0-9]+', ' ', n.lower()).strip() for n in names]
+    keys = [d12g_key(n) for n in names]
+    inc('files_with_two_names_equal_on_their_ascii_letters_and_digits(not of the recorded class)',
+        any(alnum[i] == alnum[j] and keys[i] != keys[j] for i in range(len(names)) for j in range(i)))
+    inc('files_with_two_names_without_any_ascii_letter_or_digit', sum(1 for a in alnum if not a) >= 2)
+    inc('files_with_two_names_equal_up_to_accents_width_or_normalisation_form',
+        any(strip_accents(__import__('unicodedata').normalize('NFKC', names[i])).lower() ==
+            strip_accents(__import__('unicodedata').normalize('NFKC', names[j])).lower() and keys[i] != keys[j]
+            for i in range(len(names)) for j in range(i)))
+    inc('files_with_two_names_of_the_recorded_class_D12g', len(set(keys)) < len(keys))
+    inc('files_with_two_names_sharing_their_first_40_characters', any(names[i][:40] == names[j][:40] for i in range(len(names)) for j in range(i)))
+
+
+def stats_num_months(txns):
+    from tally import analyzer
+    return analyzer.analyze_transactions([dict(t) for t in txns])['num_months']
+
+
+def txns_to_json(txns):
+    return [dict(t, date=t['date'].isoformat()) for t in txns]
+
+
+def txns_from_json(js):
+    return [dict(t, date=datetime.datetime.fromisoformat(t['date'])) for t in js]
+
+
+def html_sections(stats):
+    """The views as a browser gets them: the real write_summary_file_vue → report.html → the one <script> that assigns
+    window.spendingData → JSON → `sections`.  Returns [(id, title, [merchant displayName, …]), …] in the data's order."""
+    import os, shutil, tempfile
+    from html.parser import HTMLParser
+    from tally import report
+
+    class P(HTMLParser):
+        def __init__(self):
+            super().__init__(convert_charrefs=True)
+            self.on, self.out = False, []
+
+        def handle_starttag(self, tag, attrs):
+            if tag == 'script':
+                self.on = True
+                self.out.append('')
+
+        def handle_endtag(self, tag):
+            if tag == 'script':
+                self.on = False
+
+        def handle_data(self, data):
+            if self.on:
+                self.out[-1] += data
+
+    d = tempfile.mkdtemp(prefix='c10-html-')
+    try:
+        path = os.path.join(d, 'report.html')
+        report.write_summary_file_vue(stats, path, year=2025)
+        with open(path, encoding='utf-8', newline='') as f:
+            text = f.read()
+    finally:
+        shutil.rmtree(d, ignore_errors=True)
+    p = P()
+    p.feed(text)
+    p.close()
+    scripts = [x.strip() for x in p.out if x.lstrip().startswith(HTML_PREFIX)]
+    if len(scripts) != 1 or not scripts[0].endswith(';'):
+        raise ValueError(f'{len(scripts)} data scripts in the report')
+    data = json.loads(scripts[0][len(HTML_PREFIX):-1])
+    return [(sid, sec.get('title'), [m.get('displayName') for m in (sec.get('merchants') or {}).values()])
+            for sid, sec in (data.get('sections') or {}).items()]
+
+
+_ALONE_ID = {}
+
+
+def observed_view_id(name):
+    """the id function of the report as an external function: the id the real write_summary_file_vue gives a view of this name
+    when it is the only view of the file (observed, not re-implemented; None if the report does not show the view)"""
+    if name not in _ALONE_ID:
+        from tally import analyzer
+        stats = analyzer.analyze_transactions([{'merchant': 'A', 'category': 'Food', 'subcategory': 'x', 'amount': 5.0, 'tags': [],
+                                                'date': datetime.datetime(2025, 1, 3), 'description': 'a', 'source': 's'}])
+        stats['sections'] = {name: analyzer.compute_section_totals(list(stats['by_merchant'].items()))}
+        try:
+            secs = html_sections(stats)
+        except Exception:
+            secs = []
+        _ALONE_ID[name] = secs[0][0] if len(secs) == 1 and secs[0][1] == name else None
+    return _ALONE_ID[name]
+
+
+def html_views_oracle(text, txns, hstats=None):
+    """C10 at the HTML observation point, on the implementation alone: every view of the views file for which classify_by_sections
+    reports members is in spendingData.sections exactly once (found by its title) with exactly those merchants, and the data lists
+    no other view.  Returns (failures, observations of the recorded class D12g, what was seen: sections + required views)."""
+    from tally import section_engine as SE, analyzer
+    hstats = hstats if hstats is not None else {}
+    case = {'html_views_text': text, 'txns': txns_to_json(txns)}
+    fails, recorded, seen = [], [], None
+    try:
+        cfg = SE.parse_sections(text)
+    except SE.SectionParseError:
+        hstats['unparsable'] = hstats.get('unparsable', 0) + 1
+        return fails, recorded, seen
+    if not distinct_names(cfg):
+        return fails, recorded, seen
+    stats = analyzer.analyze_transactions([dict(t) for t in txns])
+    try:
+        res = analyzer.classify_by_sections(stats['by_merchant'], cfg, stats['num_months'])
+    except Exception:
+        return fails, recorded, seen        # reported by views_oracle
+    stats['sections'] = {name: analyzer.compute_section_totals(ms) for name, ms in res.items()}     # as commands/run.py does
+    stats['_sections_config'] = cfg
+    try:
+        secs = html_sections(stats)
+    except Exception as e:
+        fails.append(dict(case, **{'class': 'html-report-data-unreadable', 'observed': f'{type(e).__name__}: {e}'[:300]}))
+        return fails, recorded, seen
+    want = {name: [n for n, _ in ms] for name, ms in res.items() if ms}
+    seen = {'sections': [list(x) for x in secs], 'views_with_members': want}
+    by_title = {}
+    for sid, title, members in secs:
+        by_title.setdefault(title, []).append((sid, members))
+    hstats['files'] = hstats.get('files', 0) + 1
+    hstats['views_with_members'] = hstats.get('views_with_members', 0) + len(want)
+    hstats['files_with_two_or_more_such_views'] = hstats.get('files_with_two_or_more_such_views', 0) + (len(want) >= 2)
+    keys = {}
+    for n in want:
+        keys.setdefault(d12g_key(n), []).append(n)
+    for name, members in want.items():
+        got = by_title.get(name, [])
+        if len(got) == 1 and sorted(got[0][1]) == sorted(members):
+            hstats['views_found_with_exactly_their_merchants'] = hstats.get('views_found_with_exactly_their_merchants', 0) + 1
+            continue
+        twins = [m for m in keys[d12g_key(name)] if m != name]
+        f = dict(case, **{'class': 'view-missing-from-html-data' if not got else 'view-has-other-merchants-in-html-data', 'view': name,
+                          'required': sorted(members), 'observed': [sorted(ms) for _, ms in got] if got else None,
+                          'html_sections': [[sid, title] for sid, title, _ in secs],
+                          'classify_by_sections': {k: v for k, v in want.items()}})
+        # D12g (names equal up to letter case and space/underscore shared one id) was repaired in /repo (edf4718): such a loss is a
+        # violation like any other; the twin names are only reported with it
+        fails.append(dict(f, names_equal_up_to_case_and_space_underscore=twins) if twins else f)
+        break
+    for title in by_title:
+        if title not in want and not fails:
+            fails.append(dict(case, **{'class': 'html-data-lists-a-view-without-members-or-unknown', 'view': title,
+                                       'classify_by_sections': {k: v for k, v in want.items()}}))
+            break
+    return fails, recorded, seen
+
+
 def replay_case(ce, r):
     """re-execute a stored counterexample against the current code"""
+    if 'html_views_text' in ce:
+        return html_views_oracle(ce['html_views_text'], txns_from_json(ce['txns']))[0]
     if 'views_text' in ce:
         from tally import section_engine as SE, analyzer
         bm = bm_from_json(ce['merchants'])
@@ -1614,7 +1916,37 @@ def run(ctx):
         vcases.append((config_json(cfg), bm_to_json(bm), nm))
         impl_out.append(out)
         meta.append((views, text, bm, nm))
-    vdis, n_v, unm, nontriv_v = [], 0, 0, 0
+    # ---- stream `html`: the same kind of files with generated view NAMES, observed in the HTML report's data (and, like every
+    # other views file, through the Lean correspondence and the classify-level oracle below)
+    n_html = 160 if ctx.quick else 4000
+    hstats, recorded, hops, html_seen = {}, [], {}, {}
+    for i in range(n_html):
+        txns = gen_transactions(r, dyadic=True)
+        bm = by_merchant_of(txns)
+        views = gen_named_views(r, bm)
+        text = render_views(views)
+        f, rec, seen = html_views_oracle(text, txns, hstats)
+        prop_fail.extend(f)
+        recorded.extend(rec)
+        name_stats(views, hstats, hops)
+        if i % 2 == 0 and seen is not None:
+            nm = stats_num_months(txns)
+            out, cfg = impl_views(text, bm, nm)
+            if cfg is not None and distinct_names(cfg):
+                ids = [[n, observed_view_id(n)] for n in seen['views_with_members']]
+                usable = all(x is not None for _, x in ids)
+                vcases.append((config_json(cfg), bm_to_json(bm), nm, {'view_ids': ids} if usable else {}))
+                impl_out.append(out)
+                meta.append((views, text, bm, nm))
+                if usable:
+                    html_seen[len(vcases) - 1] = (seen, ids, text)
+    hstats['name_operators'] = hops
+    hstats['observations_of_the_recorded_class_D12g(not flagged)'] = len(recorded)
+    if recorded:
+        hstats['D12g_example'] = {k: recorded[0][k] for k in ('view', 'recorded_twins', 'required', 'observed', 'html_sections')}
+    ctx.notes['html_views_stream'] = hstats
+
+    vdis, n_v, unm, nontriv_v, mout = [], 0, 0, 0, None
     try:
         mout = model_views(vcases)
         for (views, text, bm, nm), m, im in zip(meta, mout, impl_out):
@@ -1622,7 +1954,7 @@ def run(ctx):
                 unm += 1
                 continue
             n_v += 1
-            mm = {k: v for k, v in m.items() if k != 'period'}
+            mm = {k: v for k, v in m.items() if k not in ('period', 'html')}
             if any('ok' in t[1] and exprs.nan_in(t[1]['ok']) for t in im.get('totals', [])):
                 continue
             if m.get('err') == 'expr':
@@ -1636,6 +1968,28 @@ def run(ctx):
     ctx.obligation('correspondence:classify_by_sections-vs-View.classifyViews', 'correspondence', not vdis, cases=n_v,
                    error=json.dumps(vdis[0], default=str)[:1500] if vdis else None)
     ctx.notes['views_stream'] = {'cases': n_v, 'unmodelled': unm}
+    # the report's sections dictionary against View.htmlSections, with the id function observed on the real report (one view alone);
+    # compared where the theorems' hypothesis `distinctIds` holds for the observed ids - where it does not (the recorded class D12g on
+    # the unchanged tree) the unrepaired code overwrites like the model, the candidate repair does not: counted, not compared
+    hdis, n_h, n_hyp_false, n_overwrites = [], 0, 0, 0
+    if mout is not None:
+        for k, (seen, ids, text) in html_seen.items():
+            m = mout[k]
+            if 'html' not in m:
+                continue
+            real = [[a, b, list(c)] for a, b, c in seen['sections']]
+            if len({x for _, x in ids}) < len(ids):
+                n_hyp_false += 1
+                n_overwrites += (m['html'] == real)
+                continue
+            n_h += 1
+            if m['html'] != real:
+                hdis.append({'html_views_text': text, 'observed_ids': ids, 'model': m['html'], 'implementation': real})
+    ctx.obligation('correspondence:write_summary_file_vue.sections-vs-View.htmlSections', 'correspondence', mout is not None and not hdis, cases=n_h,
+                   error=json.dumps(hdis[0], default=str)[:1500] if hdis else None)
+    hstats['files_compared_with_View.htmlSections(ids observed on the real report)'] = n_h
+    hstats['files_where_distinctIds_fails_for_the_observed_ids'] = n_hyp_false
+    hstats['of_which_the_report_overwrites_exactly_like_the_model'] = n_overwrites
 
     # ---- the property on the implementation alone
     n_oracle = 0
@@ -1710,6 +2064,15 @@ def run(ctx):
                        'by >= 1e-6 of the data\'s size (midpoints between merchants, between sample and population deviation) or sits on a boundary whose '
                        'truth is exact (stddev == 0, range == 0, count == k, min == an actual amount): membership == the exact specification\'s verdict '
                        '(counts in notes.aggregate_views_stream / aggregate_values_stream). '
+                       'stream html (observation point spendingData.sections): views files whose NAMES are generated - one or two families of a base '
+                       'name and names related to it by letter case, space ↔ underscore (the recorded class D12g), punctuation swapped / dropped / added, '
+                       'space written as - . NBSP tab or nothing, wrapping, accents added / stripped, NFD form, full-width form, a changed or appended '
+                       'digit, long names that differ only after 80 characters, doubled names, plus names without any ASCII letter or digit (CJK, '
+                       'Cyrillic, Greek, Arabic, Hebrew, Hangul, Devanagari, Thai, emoji, bare punctuation) - with plain filters drawn from the merchant '
+                       'set, rendered by the real write_summary_file_vue; the data script is read back from report.html and every view for which '
+                       'classify_by_sections reports members must be there once, found by its title, with exactly those merchants, and no other view; '
+                       'half of the files also go through the Lean correspondence (classifyViews, and htmlSections with the id function observed on '
+                       'the real report) and the classify-level oracle (counts in notes.html_views_stream). '
                        'non-trivial = expr: value outcome on ≥ 2 payments for a random/fixed/price filter; views: some view lists a proper, '
                        'non-empty subset of ≥ 2 merchants')
     for (views, text, bm, nm), im in list(zip(meta, impl_out))[:3]:
@@ -1730,6 +2093,8 @@ def run(ctx):
             bm = by_merchant_of(gen_price_transactions(r)[0])
             views = gen_aggregate_views(r, bm)
             out.extend(aggregate_views_oracle(views['spec'], render_views(views), bm))
+            txns = gen_transactions(r)
+            out.extend(html_views_oracle(render_views(gen_named_views(r, by_merchant_of(txns))), txns)[0])
             if out:
                 break
         ctx.cov['evaluations'] += 400
@@ -1739,6 +2104,9 @@ def run(ctx):
     return ctx.finish(extra_trusted=[
         'hand model View.eval / classifyViews of ExpressionEvaluator, ExpressionContext, section_engine.classify_merchants and '
         'analyzer.classify_by_sections, tied by differential correspondence (exception class exact)',
+        'View.htmlSections (the sections dictionary of write_summary_file_vue): the id function is an external parameter, observed on the '
+        'real report for each view name alone; html.parser + json.loads stand for the browser reading the data script; Vue / '
+        'spending_report.js are not modelled',
         'operator semantics reused from Model/Val.lean + Model/Expr.lean (validated against CPython by the C08 operator × type table)',
         'oracle parameters (quantified universally in the theorems): statistics.stdev, float x**2 and x**0.5 (libm pow), round, '
         'float %, str.lower on non-ASCII text; ast.parse',
